@@ -33,6 +33,8 @@ def global_name(name, ex):
         return Func("builtin", name)
     if name in MODULES:
         return Module(MODULES[name])
+    if name == "product":
+        return Func("builtin", "itertools.product")
     if name in ("isclose", "isinf", "sqrt", "floor", "ceil", "log2"):
         return Func("builtin", "math." + name)
     if name in ("True", "False", "None"):
@@ -476,6 +478,22 @@ def call_value_method(ex, o, name, args, kwargs, node):
             return None
         if name == "copy":
             return o.copy()
+    if isinstance(o, ObjSeq) and name == "append":
+        x = args[0]
+        if not isinstance(x, Obj) or set(o.fields) - set(x.fields):
+            raise OutOfSubset("append of %r to an object list with fields %s" % (x, sorted(o.fields)), node)
+        n = V.to_z3(o.length)
+        for f in o.fields:
+            rs = o.fields[f].sort().range()
+            val = x.fields[f]
+            if isinstance(val, Seq):
+                val = val.to_symbolic().arr
+            o.fields[f] = z3.Store(o.fields[f], n, val if is_z3(val) and val.sort() == rs else V.to_z3(V.bool_to_int(val), rs == z3.RealSort()))
+        o.length = o.length + 1 if isinstance(o.length, int) else z3.simplify(n + 1)
+        return None
+    if isinstance(o, DictV) and name == "items":
+        from .values import DictItems
+        return DictItems(o)
     if isinstance(o, DictV):
         if name == "get":
             k = ex.as_key(args[0], o.dom.sort().domain())
